@@ -68,6 +68,11 @@ class C09(C01):
     def nontrivial(self, c, obs):
         return (tuple(c["events"]), tuple(c["options"]))
 
+    def match_known(self, entry, case, failed):
+        # D22: reply to a requester with source port 0 cannot be sent; the catch-all logs the OSError
+        import c09_port
+        return c09_port.match_known(entry, case, failed)
+
     def extra_checks(self, tier, rng, report):
         # request-port half: real TftpServer._process_request vs the extracted port model
         import c09_port
